@@ -71,11 +71,23 @@ def crowding(args):
         ctx.check('same-members', sorted(x.id for x in front) != list(range(n)))
         ctx.check('stored-costs-not-modified',
                   Or(*[ops.differs(ind.costs_signed[d], C[i][d], 0.0) for i, ind in enumerate(inds) for d in range(m)]) if n else False)
-        ctx.check('assigned', any(v is None for v in cd))
-        if n == 0:
+        _crowding_laws(ctx, cd, C, n, m, ties, '')
+        if n >= 1:
+            # multi-step: the same individuals are ranked AGAIN, in another order (the swarm algorithms call
+            # crowding_distance on their leaders every generation): the same laws hold for the new values, whatever the
+            # features held before; without ties the values are determined, so they must be the same
+            O.crowding_distance(list(reversed(front)))
+            cd2 = [ind.features.get('crowding_distance') for ind in inds]
+            _crowding_laws(ctx, cd2, C, n, m, ties, '(re-ranked)')
+    return body
+
+
+def _crowding_laws(ctx, cd, C, n, m, ties, tag):
+        ctx.check('assigned' + tag, any(v is None for v in cd))
+        if n == 0 or any(v is None for v in cd):
             return
         if n <= 2:
-            ctx.check('small-front-all-inf', any(not core._is_inf(v) or v < 0 for v in cd))
+            ctx.check('small-front-all-inf' + tag, any(not core._is_inf(v) or v < 0 for v in cd))
             return
         mx = [ops.smax([C[i][d] for i in range(n)]) for d in range(m)]
         mn = [ops.smin([C[i][d] for i in range(n)]) for d in range(m)]
@@ -83,27 +95,26 @@ def crowding(args):
             for i in range(n):
                 extreme = Or(*[Or(C[i][d] == mx[d], C[i][d] == mn[d]) for d in range(m)])
                 if core._is_inf(cd[i]):
-                    ctx.check('inf-only-for-extremes', Not(extreme))
-                    ctx.check('inf-positive', cd[i] < 0)
+                    ctx.check('inf-only-for-extremes' + tag, Not(extreme))
+                    ctx.check('inf-positive' + tag, cd[i] < 0)
                     continue
-                ctx.check('extremes-are-inf', extreme)
+                ctx.check('extremes-are-inf' + tag, extreme)
                 exp = 0.0
                 for d in range(m):
                     succ = ops.smin([ite(C[j][d] > C[i][d], C[j][d], mx[d]) for j in range(n)])
                     pred = ops.smax([ite(C[j][d] < C[i][d], C[j][d], mn[d]) for j in range(n)])
                     exp = exp + (succ - pred) / (mx[d] - mn[d])
-                ctx.check('interior-formula', ops.far(cd[i], exp, 1e-9))
+                ctx.check('interior-formula' + tag, ops.far(cd[i], exp, 1e-9))
         else:
             for i in range(n):
                 if core._is_inf(cd[i]):
-                    ctx.check('inf-positive', cd[i] < 0)
+                    ctx.check('inf-positive' + tag, cd[i] < 0)
                     continue
-                ctx.check('nonnegative', cd[i] < 0)
-                ctx.check('finite-at-most-m', cd[i] > m + 1e-9)
+                ctx.check('nonnegative' + tag, cd[i] < 0)
+                ctx.check('finite-at-most-m' + tag, cd[i] > m + 1e-9)
             for d in range(m):
-                ctx.check('min-holder-inf', Not(Or(*[C[i][d] == mn[d] for i in range(n) if core._is_inf(cd[i])])))
-                ctx.check('max-holder-inf', Not(Or(*[C[i][d] == mx[d] for i in range(n) if core._is_inf(cd[i])])))
-    return body
+                ctx.check('min-holder-inf' + tag, Not(Or(*[C[i][d] == mn[d] for i in range(n) if core._is_inf(cd[i])])))
+                ctx.check('max-holder-inf' + tag, Not(Or(*[C[i][d] == mx[d] for i in range(n) if core._is_inf(cd[i])])))
 
 
 def truncate(args):
